@@ -222,6 +222,9 @@ async fn run_case(start: bool, groups: Vec<Vec<Call>>, sched: Vec<usize>) -> Str
                             };
                         }
                         Call::Await | Call::Timeout => {
+                            if stream.is_none() {
+                                break "nostream";
+                            }
                             if let Some(v) = verdict_taken {
                                 break v;
                             }
